@@ -246,7 +246,7 @@ class Static:
 
 
 # ====================================================================== monitor
-TOOL = 4
+TOOL = 5  # 4 is CrossHair's, 3 is harness/_fdiff.py's
 
 
 class Monitor:
